@@ -72,6 +72,8 @@ def cases(draw):
             if other['peer_as'] > 65535:
                 other['peer_asn4'] = True
         other['peer_asn4'] = other['peer_asn4'] if draw(st.booleans()) else sess['peer_asn4'] or other['peer_as'] > 65535
+        # ... and, half of the time, a session with another local address (`next-hop self` is resolved per session)
+        other['alt_local'] = draw(st.booleans())
         case['also'] = other
     return case
 
@@ -91,6 +93,8 @@ def config_and_open(case: dict):
         peer_ip, local_ip = '2001:db8::2', '2001:db8::1'
     else:
         peer_ip, local_ip = '127.0.0.2', '127.0.0.1'
+    if sess.get('alt_local'):
+        peer_ip, local_ip = ('2001:db8::3', '2001:db8::9') if sess['v6_transport'] else ('127.0.0.3', '127.0.0.9')
     cap = {
         'asn4': 'enable' if sess['our_asn4'] else 'disable',
         'add-path': {0: 'disable', 1: 'receive', 2: 'send', 3: 'send/receive'}[sess['our_addpath']],
@@ -141,6 +145,10 @@ def check(case: dict) -> dict:
     if case.get('also') and 'parsed' in holder:
         second = _check({'route': case['route'], 'session': case['also']}, holder)
         first['classes'] = list(first['classes']) + ['same-route-object-on-a-second-session', 'second:' + ('ebgp' if case['also']['local_as'] != case['also']['peer_as'] else 'ibgp')]
+        if case['also'].get('alt_local'):
+            first['classes'].append('second:other-local-address')
+            if case['route']['nexthop'] == 'self':
+                first['classes'].append('second:other-local-address:nh-self')
         first['nontrivial'] = first['nontrivial'] or second['nontrivial']
     return first
 
